@@ -8,6 +8,8 @@ From Dashu Require Import Int.DivWordModel Forms.FormsDiv.
 From Dashu Require Import Int.BitsKernels Int.BitsSignedProofs Forms.FormsBits.
 From Dashu Require Import Ratio.RatArithModel Ratio.RatArithRelaxed Forms.FormsRat.
 From Dashu Require Import Int.ModRingModel Int.ModRingProofs Int.ModRingMain Forms.FormsMod.
+From Dashu Require Import Int.ModRingSpec Forms.FormsGcd Forms.FormsArmsProofs Forms.FormsR3Spec Forms.FormsFloatR3 Forms.FormsModR3 Forms.FormsRatR3.
+From DashuGen Require Import FormsArms FormsFloatGen FormsModGen FormsRatGen.
 Open Scope Z_scope.
 
 (** the primitive-operand forms ( big op prim, prim op big, in the four ownership arms each ) return
@@ -407,3 +409,216 @@ Theorem C15_residue_method_forms_identical : forall w f2 f3 finv fgcd, 2 <= w ->
   (exists c, dbl_asis w a = Ok c /\ residue_add_form w o a a = Ok c /\ rep r (x + x) c).
 Proof. exact residue_method_forms_identical. Qed.
 Print Assumptions C15_residue_method_forms_identical.
+
+(** ================================================================================================
+    round 3: arm tables regenerated from the source; gcd at Repr level; the repaired zero shortcut of
+    FBig + / -; the classes of * and / exactly; Sum / Product; residue / and op=; rational macro arms
+    ================================================================================================ *)
+
+(** directly over the REGENERATED arm tables (DashuGen.FormsArms, from mul_ops.rs / div_ops.rs /
+    gcd_ops.rs mod repr), for ANY kernels: the separately written ownership impls are the same
+    function of the kernels (T * &T runs the arms on the exchanged operands; &T / T copies the
+    shorter dividend into the divisor's buffer) *)
+Theorem C15_gen_mul_arms_same : forall K x y,
+  gen_mul K ORV x y = gen_mul K OVV x y /\ gen_mul K ORR x y = gen_mul K OVV x y /\
+  gen_mul K OVR x y = gen_mul K OVV y x.
+Proof. exact gen_mul_arms_same. Qed.
+Print Assumptions C15_gen_mul_arms_same.
+
+Theorem C15_gen_div_arms_same : forall K, (forall buf src, k_clone_from_slice K buf src = src) ->
+  forall o x y,
+  gen_div_rem K o x y = gen_div_rem K OVV x y /\ gen_div K o x y = gen_div K OVV x y /\
+  gen_rem K o x y = gen_rem K OVV x y.
+Proof. exact gen_div_arms_same. Qed.
+Print Assumptions C15_gen_div_arms_same.
+
+Theorem C15_gen_gcd_arms_same : forall K o x y,
+  gen_gcd K o x y = gen_gcd K ORR x y /\ gen_gcd_ext K o x y = gen_gcd_ext K OVV x y.
+Proof. exact gen_gcd_arms_same. Qed.
+Print Assumptions C15_gen_gcd_arms_same.
+
+(** the regenerated arm tables ARE the hand-written form models of the theorems above *)
+Theorem C15_gen_int_arms_model : forall w k_dw k_dd k_rw k_rd k_large k_dg k_wg k_core k_xd k_xld k_xl o x y,
+  let MK := model_kernels w k_dw k_dd k_rw k_rd k_large k_dg k_wg k_core k_xd k_xld k_xl in
+  gen_mul MK o x y = repr_mul_form w o x y /\
+  gen_div_rem MK o x y = repr_div_rem_form w k_dw k_dd k_large o x y /\
+  gen_div MK o x y = repr_div_form w k_dw k_dd k_large o x y /\
+  gen_rem MK o x y = repr_rem_form w k_rw k_rd k_large o x y /\
+  gen_gcd MK o x y = repr_gcd_form w k_dg k_wg k_rw k_rd k_core o x y.
+Proof.
+  intros. exact (conj (gen_mul_model _ _ _ _ _ _ _ _ _ _ _ _ o x y) (conj (gen_div_rem_model _ _ _ _ _ _ _ _ _ _ _ _ o x y)
+    (conj (gen_div_model _ _ _ _ _ _ _ _ _ _ _ _ o x y) (conj (gen_rem_model _ _ _ _ _ _ _ _ _ _ _ _ o x y) (gen_gcd_model _ _ _ _ _ _ _ _ _ _ _ _ o x y))))).
+Qed.
+Print Assumptions C15_gen_int_arms_model.
+
+(** integer gcd (gcd_ops.rs mod repr), for ANY kernels that meet the kernel contracts: every
+    ownership form and the call with the operands exchanged build the identical canonical Repr of
+    Z.gcd; all panic exactly for gcd(0, 0) *)
+Theorem C15_ubig_gcd_forms_identical_rel : forall w, 8 <= w ->
+  forall (k_dg k_wg : Z -> Z -> result Z) (k_rw k_rd : list Z -> Z -> Z) (k_core : list Z -> list Z -> result (list Z)),
+  (forall a b, 0 <= a -> 0 <= b -> k_dg a b = if (a =? 0) && (b =? 0) then Panic GcdZeroZero else Ok (Z.gcd a b)) ->
+  (forall a b, 0 < a -> 0 < b -> k_wg a b = Ok (Z.gcd a b)) ->
+  (forall ws d, wf w ws -> ws <> [] -> 0 < d < B w -> k_rw ws d = value w ws mod d) ->
+  (forall ws d, wf w ws -> (2 <= length ws)%nat -> B w <= d < B w * B w -> k_rd ws d = value w ws mod d) ->
+  (forall a b, wf w a -> wf w b -> 0 < value w b < value w a ->
+     exists g, k_core a b = Ok g /\ wf w g /\ value w g = Z.gcd (value w a) (value w b)) ->
+  forall o o' x y, twf w x -> twf w y ->
+  let f := repr_gcd_form w k_dg k_wg k_rw k_rd k_core in
+  f o x y = f o' x y /\ f o y x = f o' x y /\
+  (repr_value w x = 0 /\ repr_value w y = 0 -> f o x y = Panic GcdZeroZero) /\
+  (~ (repr_value w x = 0 /\ repr_value w y = 0) ->
+     exists r, f o x y = Ok r /\ repr_value w r = Z.gcd (repr_value w x) (repr_value w y) /\ twf w r).
+Proof. exact ubig_gcd_forms_identical. Qed.
+Print Assumptions C15_ubig_gcd_forms_identical_rel.
+
+(** the table of primitive-operand forms regenerated from the macro invocations of add_ops.rs /
+    mul_ops.rs / div_ops.rs / bits.rs: Output types = out_ty of the model; which forms exist *)
+Theorem C15_gen_prim_out_model : forall bs ps n o left, gen_prim_out bs ps o left <> PoNone ->
+  pout_ty bs ps n (gen_prim_out bs ps o left) = Some (out_ty (big_ty bs) (TPrim ps n) o left).
+Proof. exact gen_prim_out_model. Qed.
+Print Assumptions C15_gen_prim_out_model.
+
+Theorem C15_gen_prim_offered : forall bs ps o left,
+  gen_prim_out bs ps o left = PoNone <-> ((bs = false /\ ps = true) \/ (o = IoRem /\ left = true)).
+Proof. exact gen_prim_offered. Qed.
+Print Assumptions C15_gen_prim_offered.
+
+Theorem C15_gen_prim_divrem_offered : forall bs ps, gen_prim_divrem bs ps = negb (negb bs && ps).
+Proof. exact gen_prim_divrem_offered. Qed.
+Print Assumptions C15_gen_prim_divrem_offered.
+
+(** FBig + and - after the repair of the zero shortcut: all four operator bodies (and += / -=
+    through take) and the Context method agree for ALL operands - no hypothesis on their lengths *)
+Theorem C15_float_add_forms_agree_r3 : forall B digits_ub, (forall s, digits_ub (- s) = digits_ub s) ->
+  forall o o' p1 p2 m s1 e1 s2 e2 sg,
+  fadd_form B digits_ub o p1 p2 m s1 e1 s2 e2 sg = fadd_form B digits_ub o' p1 p2 m s1 e1 s2 e2 sg.
+Proof. exact float_add_forms_agree_r3. Qed.
+Print Assumptions C15_float_add_forms_agree_r3.
+
+Theorem C15_float_add_ctx_agrees_r3 : forall B digits_ub, (forall s, digits_ub (- s) = digits_ub s) ->
+  forall o p1 p2 m s1 e1 s2 e2,
+  approx_val (ctx_add B digits_ub (ctx_max p1 p2) m s1 e1 s2 e2) = fadd_form B digits_ub o p1 p2 m s1 e1 s2 e2 Positive.
+Proof. exact float_add_ctx_agrees_r3. Qed.
+Print Assumptions C15_float_add_ctx_agrees_r3.
+
+Theorem C15_float_sub_ctx_agrees_r3 : forall B digits_ub, (forall s, digits_ub (- s) = digits_ub s) ->
+  forall o p1 p2 m s1 e1 s2 e2,
+  approx_val (ctx_sub_r3 B digits_ub (ctx_max p1 p2) m s1 e1 s2 e2) = fadd_form B digits_ub o p1 p2 m s1 e1 s2 e2 Negative.
+Proof. exact float_sub_ctx_agrees_r3. Qed.
+Print Assumptions C15_float_sub_ctx_agrees_r3.
+
+Theorem C15_fadd_form_eq_pinned : forall B digits_ub p1 p2 m s1 e1 s2 e2 sg,
+  let p := ctx_max p1 p2 in (p = 0 \/ (dlen B s1 <= p /\ dlen B s2 <= p)) ->
+  fadd_form B digits_ub OVV p1 p2 m s1 e1 s2 e2 sg = add_val_val B digits_ub p1 p2 m s1 e1 s2 e2 sg.
+Proof. exact fadd_form_eq_pinned. Qed.
+Print Assumptions C15_fadd_form_eq_pinned.
+
+Theorem C15_float_zero_shortcut_repaired :
+  fadd_form 10 (dlen 10) OVV 0 3 MHalfAway 123456 0 0 0 Positive = (123, 3) /\
+  add_val_val_x 10 0 3 MHalfAway 123456 0 0 0 Positive = (123456, 0) /\
+  approx_val (ctx_sub_r3 10 (dlen 10) 3 MUp 0 0 123456 0) = (-123, 3) /\
+  approx_val (ctx_sub_x 10 3 MUp 0 0 123456 0) = (-124, 3).
+Proof. exact float_zero_shortcut_repaired. Qed.
+Print Assumptions C15_float_zero_shortcut_repaired.
+
+(** regenerated float fragments (DashuGen.FormsFloatGen, from float/src/mul.rs, div.rs, shift.rs,
+    iter.rs and the method wrappers) = the models *)
+Theorem C15_gen_fmul_model : forall o B m p1 s1 e1 p2 s2 e2,
+  gen_fmul o B m p1 s1 e1 p2 s2 e2 = (fmul_op B (ctx_max p1 p2) m s1 e1 s2 e2, ctx_max p1 p2) /\
+  gen_fmul_checks_finite o = true.
+Proof. exact gen_fmul_model. Qed.
+Print Assumptions C15_gen_fmul_model.
+
+Theorem C15_gen_fdivrem_model : forall (A V : Type) o (f : Z -> A -> A -> V) p1 r1 p2 r2,
+  gen_fdivrem o f p1 r1 p2 r2 = (f (ctx_max p1 p2) r1 r2, ctx_max p1 p2) /\
+  gen_fdivrem_insts = [(FDivOp, FReprDiv); (FRemOp, FReprRem)].
+Proof. intros. exact (conj (gen_fdivrem_model A V o f p1 r1 p2 r2) gen_fdivrem_insts_model). Qed.
+Print Assumptions C15_gen_fdivrem_model.
+
+Theorem C15_gen_fshift_model : forall s e n,
+  fshl_asis (FFin s e) n = Ok (fin_of (gen_fshl s e n)) /\ fshl_asis (FFin s e) n = Ok (fin_of (gen_fshl_assign s e n)) /\
+  fshr_asis (FFin s e) n = Ok (fin_of (gen_fshr s e n)) /\ fshr_asis (FFin s e) n = Ok (fin_of (gen_fshr_assign s e n)) /\
+  gen_fshl_checks_finite && gen_fshl_assign_checks_finite && gen_fshr_checks_finite && gen_fshr_assign_checks_finite = true.
+Proof. exact gen_fshift_model. Qed.
+Print Assumptions C15_gen_fshift_model.
+
+Theorem C15_gen_fmethod_forwards :
+  map fst gen_fmethod_forwards = [FM_exp; FM_exp_m1; FM_powi; FM_ln; FM_ln_1p; FM_sqrt; FM_sqr; FM_cubic; FM_inv] /\
+  Forall (fun p => fst p = snd p) gen_fmethod_forwards.
+Proof. exact gen_fmethod_forwards_model. Qed.
+Print Assumptions C15_gen_fmethod_forwards.
+
+(** the open class float_operand_exceeds_precision, exactly: `/` and Context::div agree IFF the
+    dividend is not longer than precision + digits of the divisor; inside the class the operator
+    trips the assertion of repr_div (Undocumented) and Context::div never does *)
+Theorem C15_float_div_class_exact : forall B p m s1 e1 s2 e2,
+  fdiv_ctx B p m s1 e1 s2 e2 = fdiv_op B p m s1 e1 s2 e2 <-> ~ (p <> 0 /\ p + dlen B s2 < dlen B s1).
+Proof. exact float_div_class_exact. Qed.
+Print Assumptions C15_float_div_class_exact.
+
+Theorem C15_fdiv_op_undocumented_iff : forall B p m s1 e1 s2 e2,
+  (fdiv_op B p m s1 e1 s2 e2 = Panic Undocumented <-> (p <> 0 /\ p + dlen B s2 < dlen B s1)) /\
+  fdiv_ctx B p m s1 e1 s2 e2 <> Panic Undocumented.
+Proof. intros. exact (conj (fdiv_op_undocumented_iff B p m s1 e1 s2 e2) (fdiv_ctx_never_undocumented B p m s1 e1 s2 e2)). Qed.
+Print Assumptions C15_fdiv_op_undocumented_iff.
+
+Theorem C15_float_mul_class : forall B p m s1 e1 s2 e2, ~ fmul_class B p s1 s2 ->
+  approx_val (ctx_mul B p m s1 e1 s2 e2) = fmul_op B p m s1 e1 s2 e2.
+Proof. exact float_mul_class. Qed.
+Print Assumptions C15_float_mul_class.
+
+(** Sum / Product of FBig = the fold of + / * from FBig::ZERO / FBig::ONE (regenerated from iter.rs);
+    over owned items, borrowed items, or folded by hand with + / += : one value, for every list *)
+Theorem C15_gen_fsum_model : forall B digits_ub m o (fsub fdiv : fval3 -> fval3 -> fval3) items,
+  gen_fsum F_ZERO F_ONE F_NEG_ONE (fadd3 B digits_ub m o Positive) fsub (fmul3 B m) fdiv items = fsum_asis B digits_ub m o items /\
+  gen_fprod F_ZERO F_ONE F_NEG_ONE (fadd3 B digits_ub m o Positive) fsub (fmul3 B m) fdiv items = fprod_asis B m items.
+Proof. exact gen_fsum_model. Qed.
+Print Assumptions C15_gen_fsum_model.
+
+Theorem C15_fsum_forms_agree : forall B digits_ub, (forall s, digits_ub (- s) = digits_ub s) ->
+  forall m o o' items, fsum_asis B digits_ub m o items = fsum_asis B digits_ub m o' items.
+Proof. exact fsum_forms_agree. Qed.
+Print Assumptions C15_fsum_forms_agree.
+
+(** residue forms: the forwarding structure regenerated from modular/{add,mul,div}.rs = the form
+    models; `/`, `/=` and the other op= forms *)
+Theorem C15_gen_residue_model : forall w f2 f3 finv fgcd o a b,
+  let MK := model_res_kernels w f2 f3 finv fgcd in
+  gen_radd MK o a b = residue_add_form w (rown_of o) a b /\
+  gen_rsub MK o a b = residue_sub_form w (rown_of o) a b /\
+  gen_rmul MK o a b = residue_mul_form w f2 f3 (rown_of o) a b /\
+  gen_rdiv MK o a b = div_asis w f2 f3 finv fgcd a b /\
+  (forall byref, gen_radd_assign MK byref a b = add_asis w a b /\ gen_rsub_assign MK byref a b = sub_asis w a b /\
+                 gen_rmul_assign MK byref a b = mul_asis w f2 f3 a b /\ gen_rdiv_assign MK byref a b = div_asis w f2 f3 finv fgcd a b).
+Proof. exact gen_residue_model. Qed.
+Print Assumptions C15_gen_residue_model.
+
+Theorem C15_residue_div_forms_identical : forall w f2 f3 finv fgcd, 2 <= w -> externals_ok w f2 f3 finv fgcd ->
+  forall o o' byref r x y a b, ring_wf w r -> rep r x a -> rep r y b ->
+  let MK := model_res_kernels w f2 f3 finv fgcd in
+  gen_rdiv MK o a b = gen_rdiv MK o' a b /\ gen_rdiv_assign MK byref a b = gen_rdiv MK o a b /\
+  match div_spec (r_m r) x y with
+  | Ok q => exists c, gen_rdiv MK o a b = Ok c /\ rep r q c
+  | Panic p => gen_rdiv MK o a b = Panic p
+  | _ => False
+  end.
+Proof. exact residue_div_forms_identical. Qed.
+Print Assumptions C15_residue_div_forms_identical.
+
+Theorem C15_residue_assign_forms_identical : forall w f2 f3 finv fgcd byref a b,
+  let MK := model_res_kernels w f2 f3 finv fgcd in
+  gen_radd_assign MK byref a b = gen_radd MK OVR a b /\ gen_rsub_assign MK byref a b = gen_rsub MK OVR a b /\
+  gen_rmul_assign MK byref a b = gen_rmul MK OVR a b.
+Proof. exact residue_assign_forms_identical. Qed.
+Print Assumptions C15_residue_assign_forms_identical.
+
+(** rational macro families (regenerated from rational/src/helper_macros.rs): every ownership arm
+    hands the ONE operator body the numerator and denominator of self, then of rhs (or the integer) *)
+Theorem C15_gen_ratio_arms_same : forall o,
+  gen_ratio_arm RmBin o = [SelfNum; SelfDen; RhsNum; RhsDen; SelfNum; SelfDen; RhsNum; RhsDen] /\
+  gen_ratio_arm RmBin2 o = [SelfNum; SelfDen; RhsNum; RhsDen; SelfNum; SelfDen; RhsNum; RhsDen] /\
+  gen_ratio_arm RmIntRight o = [SelfNum; SelfDen; RhsInt; SelfNum; SelfDen; RhsInt] /\
+  gen_ratio_arm RmIntLeft o = [RhsNum; RhsDen; SelfInt; RhsNum; RhsDen; SelfInt] /\
+  gen_ratio_assign_by_taking = true.
+Proof. exact gen_ratio_arms_same. Qed.
+Print Assumptions C15_gen_ratio_arms_same.
